@@ -12,6 +12,12 @@ Extracted (all from the working tree's source, every run):
   * which of `self.permission` / `child_permission` is handed to each child constructor
   * the initial / reset constants: child permission of a type, the reset at a type's
     CONTAINS, the forced permission of a submodule, the default `inherited_permission`.
+  * `itemPasses`: the entity lists of the first loop of process_attribs alone (the repaired deletion order
+    applies to that loop only), `exportWords`: the permissions `FortranModule._cleanup` lets into the
+    pub_* tables (`should_be_public`)
+  * the truth table of the getter `FortranProcedure.permission` (by evaluating the property on stub
+    objects: parent = generic interface / non-generic interface / module): does a procedure report its
+    parent's permission (`readGeneric`, `readWrapper`, `readModule`)
 A construct that cannot be found raises (=> "tie broken", never a pass).
 """
 from __future__ import annotations
@@ -96,14 +102,28 @@ def extract(repo: Path) -> dict:
                               "FortranBoundProcedure._initialize")
     pa = _func(tree, "FortranCodeUnit", "process_attribs")
     loops = [n for n in pa.body if isinstance(n, ast.For)]
-    item_loop = [n for n in loops if _iterator_args(n.iter)]
+    # (candidate repair C04-specific-access-statement) a loop over the generic interfaces alone that hands the access
+    # words to their interface bodies; it is modelled as the run-time variant `specLoop` (first thing in
+    # process_attribs, same word list, nothing deleted) - anything else about it is a broken tie
+    spec_loop = [n for n in loops if _iterator_args(n.iter) == ["interfaces"]]
+    item_loop = [n for n in loops if _iterator_args(n.iter) and n not in spec_loop]
     var_loop = [n for n in loops if _is_self_attr(n.iter, "variables")]
-    if len(item_loop) != 1 or len(var_loop) != 1:
+    if len(item_loop) != 1 or len(var_loop) != 1 or len(spec_loop) > 1:
         raise NotFound("process_attribs: item loop / variable loop not found")
     if item_loop[0].lineno > var_loop[0].lineno:
         raise NotFound("process_attribs: variable loop now precedes the item loop")
-    t["attribPasses"] = _iterator_args(item_loop[0].iter) + ["variables"]
+    t["specLoopInSource"] = bool(spec_loop)
+    if spec_loop:
+        if spec_loop[0].lineno > item_loop[0].lineno:
+            raise NotFound("process_attribs: the loop over the interface bodies must come first (it sees the whole attr_dict)")
+        if any(isinstance(x, ast.Delete) for x in ast.walk(spec_loop[0])):
+            raise NotFound("process_attribs: the loop over the interface bodies deletes attr_dict entries")
+        spec_words = _one(_in_lists(spec_loop[0]), "process_attribs loop over the interface bodies")
+    t["itemPasses"] = _iterator_args(item_loop[0].iter)
+    t["attribPasses"] = t["itemPasses"] + ["variables"]
     t["applyWords"] = _one(_in_lists(item_loop[0]), "process_attribs item loop")
+    if spec_loop and spec_words != t["applyWords"]:
+        raise NotFound("process_attribs: the loop over the interface bodies recognises other access words than the item loop")
     t["applyVarWords"] = _one(_in_lists(var_loop[0]), "process_attribs variable loop")
     pl = None
     for node in ast.walk(pa):
@@ -189,7 +209,47 @@ def extract(repo: Path) -> dict:
     if not (isinstance(d, ast.Constant) and d.value in PERM):
         raise NotFound("FortranBase.__init__: default of inherited_permission")
     t["moduleInit"] = d.value
+    # the permissions that put an entity into a module's pub_* tables
+    t["exportWords"] = _one(_in_lists(_func(tree, "FortranModule", "_cleanup")), "FortranModule._cleanup should_be_public")
+    t.update(probe_getter())
     return t
+
+
+def probe_getter() -> dict:
+    """Truth table of the property `FortranProcedure.permission`, evaluated on stub objects of the real
+    classes (no parsing involved): which kinds of parent make a procedure report the parent's permission."""
+    from harness import common
+
+    common.import_ford()
+    import ford.sourceform as sf
+
+    out = {}
+    for key, cls, generic in (("readGeneric", sf.FortranInterface, True), ("readWrapper", sf.FortranInterface, False),
+                              ("readWrapperMP", sf.FortranModuleProcedureInterface, False),
+                              ("readModule", sf.FortranModule, None)):
+        seen = set()
+        for pcls in (sf.FortranSubroutine, sf.FortranFunction):
+            try:
+                parent = object.__new__(cls)
+                if generic is not None and cls is sf.FortranInterface:
+                    parent.generic = generic
+                parent.permission = "parent"
+                proc = object.__new__(pcls)
+                proc.permission = "own"
+                proc.parent = parent
+                got = proc.permission
+            except Exception as e:  # the getter needs something the stub does not have
+                raise NotFound(f"FortranProcedure.permission could not be evaluated on a stub ({key}): {type(e).__name__}: {e}")
+            if got not in ("own", "parent"):
+                raise NotFound(f"FortranProcedure.permission returned {got!r} on a stub ({key})")
+            seen.add(got == "parent")
+        if len(seen) != 1:
+            raise NotFound(f"FortranProcedure.permission differs between subroutines and functions ({key})")
+        out[key] = seen.pop()
+    if out.pop("readWrapperMP") != out["readWrapper"]:
+        raise NotFound("FortranProcedure.permission treats FortranInterface(generic=False) and "
+                       "FortranModuleProcedureInterface differently")
+    return out
 
 
 def render(t: dict) -> str:
@@ -203,6 +263,8 @@ def render(t: dict) -> str:
          "import FordModel.AccessTypes", "namespace Ford.Access", ""]
     for k in ("bareWords", "varAttrWords", "typeAttrWords", "bindAttrWords", "applyWords", "applyVarWords"):
         L.append(f"def {k} : List Perm := {perms(t[k])}")
+    L.append(f"def exportWords : List Perm := {perms(t['exportWords'])}")
+    L.append(f"def itemPasses : List Cat := {cats(t['itemPasses'])}")
     L.append(f"def attribPasses : List Cat := {cats(t['attribPasses'])}")
     L.append(f"def publicListCats : List Cat := {cats(t['publicListCats'])}")
     L.append(f"def publicWord : Perm := {PERM[t['publicWord']]}")
@@ -210,7 +272,7 @@ def render(t: dict) -> str:
         L.append(f"def {k} : Src := {t[k]}")
     for k in ("typeChildInit", "containsReset", "submoduleInit", "moduleInit"):
         L.append(f"def {k} : Perm := {PERM[t[k]]}")
-    for k in ("bareSetsChild", "bareSetsSelf"):
+    for k in ("bareSetsChild", "bareSetsSelf", "readGeneric", "readWrapper", "readModule"):
         L.append(f"def {k} : Bool := {'true' if t[k] else 'false'}")
     L += ["", "end Ford.Access", ""]
     return "\n".join(L)
